@@ -29,6 +29,7 @@ Drives the `warcraft-rs` binary built from the current tree (or `VERIF_CLI=<path
 Signatures: <clause>|<family>|<sub-command>|<input class>, clause in {exit0-but-failed, exit0-output-missing,
 exit0-output-unparseable, roundtrip-differs, list-ne-library, info-count-ne-library, missing-name-exit0, memcheck}.
 """
+import hashlib
 import json
 import os
 import random
@@ -1408,7 +1409,67 @@ def slice_unreadable(ctx, sink, archives, gen_files):
         spec = {"family": fam, "sub": sub, "cls": cls, "opt": opt, "lib": {"v": "unknown"}, "expect_fail_reason": why, "stdout": "none", "show": short_cmd(args, ctx.scratch), "input": {"class": cls}}
         viols = judge_sweep(ctx, spec, r, None, None)
         sink.record(fam, sub, cls, opt, r, viols, lib="err", sample=None, replay={"slice": "C3", "cmd": spec["show"]})
+    slice_inplace(ctx, sink, d, valid)
     shutil.rmtree(d, ignore_errors=True)
+
+
+def slice_inplace(ctx, sink, d, valid):
+    """Converters asked to write their output over their input (output path == input path, directly and through a symbolic
+    link): the command does what it does for a separate output path - same exit status, and with exit 0 the file afterwards
+    holds exactly the bytes the separate-path run produced; with a non-zero exit the input is still there unchanged."""
+    convs = [
+        ("m2", "m2", "convert", lambda i, o: ["m2", "convert", i, o, "--version", "wotlk"]),
+        ("skin", "m2", "skin-convert", lambda i, o: ["m2", "skin-convert", i, o, "--version", "cata"]),
+        ("wmo-root", "wmo", "convert", lambda i, o: ["wmo", "convert", i, o, "--version", "cata"]),
+        ("adt", "adt", "convert", lambda i, o: ["adt", "convert", i, o, "--to", "wotlk"]),
+        ("wdt", "wdt", "convert", lambda i, o: ["wdt", "convert", i, o, "-f", "wotlk", "-t", "cata"]),
+        ("wdl", "wdl", "convert", lambda i, o: ["wdl", "convert", i, o, "--to", "legion"]),
+        ("blp", "blp", "convert", lambda i, o: ["blp", "convert", i, o, "--blp-version", "blp2", "--blp-format", "raw1"]),
+    ]
+    jobs = []
+    for fmt, fam, sub, mk in convs:
+        src = valid.get(fmt)
+        if not src:
+            continue
+        ext = os.path.splitext(src)[1] or "." + fmt
+        for how in ("same-path", "through-symlink"):
+            jobs.append((fmt, fam, sub, mk, src, ext, how))
+
+    def run_one(job):
+        fmt, fam, sub, mk, src, ext, how = job
+        wd = os.path.join(d, f"inplace-{fmt}-{how}")
+        os.makedirs(wd)
+        ref_out = os.path.join(wd, "ref-out" + ext)
+        r0 = ctx.run_cli(mk(src, ref_out))
+        work = os.path.join(wd, "work" + ext)
+        shutil.copyfile(src, work)
+        outp = work
+        if how == "through-symlink":
+            outp = os.path.join(wd, "alias" + ext)
+            os.symlink(os.path.basename(work), outp)
+        r1 = ctx.run_cli(mk(work, outp))
+        def digest(p):
+            try:
+                with open(p, "rb") as fh:
+                    b = fh.read()
+                return hashlib.sha256(b).hexdigest(), len(b)
+            except OSError:
+                return None, None
+        return {"ref_rc": r0["rc"], "rc": r1["rc"], "ref": digest(ref_out), "after": digest(work), "before": digest(src), "r": r1, "stderr": (r1.get("err") or "")[-200:]}
+
+    outs = pmap(run_one, jobs)
+    for (fmt, fam, sub, mk, src, ext, how), o in zip(jobs, outs):
+        viols = []
+        show = short_cmd(mk("$IN", "$IN"), ctx.scratch)
+        det = {"cmd": show, "how": how, "exit_separate_path": o["ref_rc"], "exit_in_place": o["rc"], "separate_output": o["ref"], "file_afterwards": o["after"], "input": o["before"], "stderr_tail": o["stderr"]}
+        if o["ref_rc"] == 0 and o["rc"] != 0:
+            viols.append((f"in-place-conversion-fails|{fam}|{sub}", f"`{fam} {sub}` with the output path naming the input file ({how}) exits {o['rc']} although the same conversion to a separate path exits 0; file afterwards: {o['after'][1]} bytes (input {o['before'][1]})", det))
+        elif o["ref_rc"] == 0 and o["rc"] == 0 and o["after"] != o["ref"]:
+            viols.append((f"in-place-conversion-output-differs|{fam}|{sub}", f"`{fam} {sub}` in place ({how}) exits 0 but the file afterwards ({o['after'][1]} bytes) is not what the separate-path run wrote ({o['ref'][1]} bytes)", det))
+        elif o["rc"] != 0 and o["after"] != o["before"]:
+            viols.append((f"failed-in-place-conversion-destroys-input|{fam}|{sub}", f"`{fam} {sub}` in place ({how}) exits {o['rc']} and the input file is no longer what it was ({o['after'][1]} bytes, was {o['before'][1]})", det))
+        sink.res.add_counter("in_place_conversions", 1)
+        sink.record(fam, sub, "valid", f"in-place-{how}", o["r"], viols, lib="ok", sample=None, replay={"slice": "C3", "cmd": show})
 
 
 # ------------------------------------------------------------------------------------- slice D: memcheck
